@@ -103,6 +103,52 @@ def facade_selects(plat, c, l):
     return scenario
 
 
+def facade_follows_updates(plat, c, l):
+    """the selection as the facade really makes it: devices change one at a time through status-block updates, the
+    pump/blower change notifications reach the facade's handler, and after every single update the mode last
+    selected is active iff some pump or blower is on in the block now in force"""
+    def scenario(sx):
+        import geckolib.automation.async_facade as af
+        f, spa = c11.build(plat, c, l)
+        devs = list(f.all_config_change_devices)[:3]
+        if len(devs) < 2:
+            sx.check(True, "dev.none")
+            return
+        calls = []
+        saved = af.set_config_mode
+        af.set_config_mode = lambda x: calls.append(x)
+        try:
+            # everything off to begin with, every state read once (as the facade's periodic update does)
+            items = list(spa.struct.status_block)
+            accs = []
+            for d in f.all_config_change_devices:
+                a = d._accessor if hasattr(d, "_accessor") else d._state_sensor.accessor
+                rec = refmodel.record_of(a)
+                off = 0 if rec["type"] == "Bool" else rec["labels"].index("OFF")
+                fe.set_item(items, a, off)
+                accs.append((d, a, rec, off))
+            spa.struct.set_status_block(bytes(items))
+            _ = [d.is_on for d in f.all_config_change_devices]
+            f._on_config_device_change()
+            state = {d.key: False for d, *_ in accs}
+            for step in range(3):
+                d, a, rec, off = accs[sx.choice(f"device{step}", len(devs))]
+                turn_on = not state[d.key]
+                on_val = 1 if rec["type"] == "Bool" else [i for i, s_ in enumerate(rec["labels"]) if s_ not in ("OFF", "")][0]
+                cur = list(spa.struct.status_block)
+                fe.set_item(cur, a, on_val if turn_on else off)
+                del calls[:]
+                spa.struct.replace_status_block_segment(a.pos, bytes(cur[a.pos:a.pos + a.length]))
+                state[d.key] = turn_on
+                sx.check(bool(calls), "dev.update-reaches-the-mode-selection", lambda: f"step {step} {d.key}")
+                if calls:
+                    sx.check(calls[-1] == any(state.values()), "dev.mode-follows-every-single-update",
+                             lambda: f"step {step}: {d.key} -> {turn_on}, selected {calls[-1]}, on: {state}")
+        finally:
+            af.set_config_mode = saved
+    return scenario
+
+
 def sleepers(k, m):
     def scenario(sx):
         import asyncio
@@ -268,6 +314,7 @@ def units(tier):
     yield Unit("switch-complete", switch_complete)
     for (plat, c, l) in sorted(configurations()):
         yield Unit(f"facade-selects.{plat}-{c}-{l}", facade_selects(plat, c, l), max_paths=50000)
+        yield Unit(f"facade-follows-updates.{plat}-{c}-{l}", facade_follows_updates(plat, c, l), validate=False)
     k, m = (2, 1) if tier == "quick" else (3, 2)
     yield Unit(f"sleepers.{k}x{m}", sleepers(k, m), max_paths=200000, max_depth=3000)
     yield Unit("zero-delay", zero_delay)
